@@ -81,6 +81,16 @@ Theorem C10_sites_multiline : forall key func t args,
 Proof. exact thm_sites_multiline. Qed.
 Print Assumptions C10_sites_multiline.
 
+(** replies assembled from SEVERAL calls (a netwrite() of "NNN-..." lines followed, on every path, by the call that
+    goes on with the reply; table [reply_sequences], found by the translator: any literal that is not a complete reply
+    by itself - and hence not in [netwrite_literals], see C10_literal_replies - opens exactly one entry): whatever the
+    holes of the last call hold within their classes, the octets written by all calls of the entry together are ONE valid
+    reply - the same code on every line, '-' on all but the last.  Together with (i)-(iii): every reply-writing call of
+    every function either is a complete reply or belongs to such an entry. *)
+Theorem C10_reply_sequences : Forall (fun e => seq_valid (snd e)) reply_sequences.
+Proof. exact thm_reply_sequences. Qed.
+Print Assumptions C10_reply_sequences.
+
 (** 3. DNS supplied text: whatever octets the TXT records hold, the string dnstxt() returns - the one cb_dnsbl and
     cb_namebl embed - has no CR, LF or NUL, has the length of the record and differs from it only where the
     record had a control octet (replaced by '?').  (The unpatched dnstxt() passes the record on unchanged:
